@@ -30,11 +30,19 @@ type StackCfg struct {
 	MaxWindow    time.Duration
 	MinRTTThresh time.Duration
 	Limit0       core.Limit // optional: limit algorithm (default: FixedLimit(Limit))
+	DebugLog     bool       // every layer gets a debug-enabled logger that formats its arguments (String() of limiters, limits, strategies)
 }
 
 func (c StackCfg) String() string {
-	return fmt.Sprintf("kind=%s ordering=%q strategy=%s limit=%d timeout=%v backlog=%d evict=%v deadline=+%v",
-		c.Kind, c.Ordering, c.Strategy, c.Limit, c.Timeout, c.Backlog, c.Evict, c.Deadline)
+	return fmt.Sprintf("kind=%s ordering=%q strategy=%s limit=%d timeout=%v backlog=%d evict=%v deadline=+%v debuglog=%v",
+		c.Kind, c.Ordering, c.Strategy, c.Limit, c.Timeout, c.Backlog, c.Evict, c.Deadline, c.DebugLog)
+}
+
+func (c StackCfg) logger() limit.Logger {
+	if c.DebugLog {
+		return &debugLogger{}
+	}
+	return nopLogger{}
 }
 
 func (c StackCfg) Key() string {
@@ -193,7 +201,7 @@ func BuildStack(c StackCfg) (*Stack, error) {
 		if lim == nil {
 			lim = limit.NewFixedLimit("fixed", c.Limit, nil)
 		}
-		return limiter.NewDefaultLimiter(lim, minW.Nanoseconds(), maxW.Nanoseconds(), thr.Nanoseconds(), ws, strat, nopLogger{}, core.EmptyMetricRegistryInstance)
+		return limiter.NewDefaultLimiter(lim, minW.Nanoseconds(), maxW.Nanoseconds(), thr.Nanoseconds(), ws, strat, c.logger(), core.EmptyMetricRegistryInstance)
 	}
 	var err error
 	qord := func(o string) limiter.QueueOrdering {
@@ -221,13 +229,13 @@ func BuildStack(c StackCfg) (*Stack, error) {
 	case "blocking":
 		st.Default, err = mkDefault()
 		if err == nil {
-			st.Lim = limiter.NewBlockingLimiter(st.Default, c.Timeout, nopLogger{})
+			st.Lim = limiter.NewBlockingLimiter(st.Default, c.Timeout, c.logger())
 		}
 	case "deadline":
 		st.Default, err = mkDefault()
 		if err == nil {
 			st.DeadlineAt = time.Now().Add(c.Deadline)
-			st.Lim = limiter.NewDeadlineLimiter(st.Default, st.DeadlineAt, nopLogger{})
+			st.Lim = limiter.NewDeadlineLimiter(st.Default, st.DeadlineAt, c.logger())
 		}
 	case "queue":
 		st.Default, err = mkDefault()
@@ -276,7 +284,7 @@ func BuildStack(c StackCfg) (*Stack, error) {
 	case "fixedpool":
 		st.Simple, st.Precise, st.Lookup, st.Pred, st.Parts = nil, nil, nil, nil, nil
 		var p *pool.FixedPool
-		p, err = pool.NewFixedPool("pool", pord(c.Ordering), c.Limit, ws, minW, maxW, thr, c.Backlog, c.Timeout, nopLogger{}, st.Reg)
+		p, err = pool.NewFixedPool("pool", pord(c.Ordering), c.Limit, ws, minW, maxW, thr, c.Backlog, c.Timeout, c.logger(), st.Reg)
 		if err == nil {
 			st.Lim = p
 			if c.Ordering == "fifo" || c.Ordering == "lifo" {
@@ -287,7 +295,7 @@ func BuildStack(c StackCfg) (*Stack, error) {
 		st.Default, err = mkDefault()
 		if err == nil {
 			var p *pool.Pool
-			p, err = pool.NewPool(st.Default, pord(c.Ordering), c.Backlog, c.Timeout, nopLogger{}, st.Reg)
+			p, err = pool.NewPool(st.Default, pord(c.Ordering), c.Backlog, c.Timeout, c.logger(), st.Reg)
 			if err == nil {
 				st.Lim = p
 				if c.Ordering == "fifo" || c.Ordering == "lifo" {
